@@ -169,6 +169,9 @@ inductive LoopR (ρ σ : Type) where
   | hang
   | done (s : σ)
 
+/-- Fuel for self-recursive Rust functions (reflection branches; depth ≤ 2 in statrs). -/
+def recFuel : Nat := 16
+
 /-- Fuel given to every `loop`/`while` lifted by the translator. -/
 def loopFuel : Nat := 20000
 
